@@ -16,6 +16,10 @@ def _one_scanner(job):
     force = os.environ.get('FV_FORCE_BACKEND')
     if force:
         cfg.backend = force
+    if cfg.backend == 'cxx':
+        cfg.tables = None
+        cfg.prefix = None
+        cfg.stdio = False
     if cfg.backend == 'c99':
         cfg.tables = None
         cfg.prefix = None
@@ -156,8 +160,9 @@ def _ops_case(kinds=None, small=True, nsrc=1, wrap=False):
     return gen
 
 
-def _backend(rng):
-    return rng.choice(['nr', 'nr', 'r', 'r', 'c99'])
+def _backend(rng, cxx=False):
+    # cxx: the C++ class (harness/fvmain_cxx.cc) runs `lex`/`destroy` scripts on one source only
+    return rng.choice(['nr', 'nr', 'r', 'r', 'c99'] + (['cxx'] if cxx else []))
 
 
 def _compressed(rng):
@@ -166,7 +171,7 @@ def _compressed(rng):
 
 def fam_ops(rng):
     rs = rules.gen_ruleset(rng, p_trail=0.0)
-    cfg = rt.Config(ledger=rng.random() < 0.5, backend=_backend(rng), topt=rng.choice(TOPTS), interactive=rng.choice([None, False]),
+    cfg = rt.Config(ledger=rng.random() < 0.5, backend=_backend(rng, cxx=True), topt=rng.choice(TOPTS), interactive=rng.choice([None, False]),
                     yymore=rng.random() < 0.5, stack=rng.random() < 0.6, array=rng.random() < 0.4,
                     yylmax=rng.choice([None, 3, 5, 8, 13, 40]))
     return rs, cfg, _ops_case()
@@ -178,7 +183,7 @@ def fam_reads(rng):
     at which no longer match is possible; a batch scanner reads exactly one byte further)"""
     rs = rules.gen_ruleset(rng, p_trail=rng.choice([0.0, 0.2]))
     inter = rng.choice([True, True, False, None])
-    cfg = rt.Config(backend=_backend(rng), topt=_compressed(rng) if inter is not False else rng.choice(TOPTS), interactive=inter,
+    cfg = rt.Config(backend=_backend(rng, cxx=True), topt=_compressed(rng) if inter is not False else rng.choice(TOPTS), interactive=inter,
                     yymore=rng.random() < 0.3, array=rng.random() < 0.2)
     inner = _ops_case(kinds=['less', 'input', 'begin', 'return'] + (['more'] if cfg.yymore else []))
 
@@ -214,28 +219,28 @@ def fam_deepstack(rng):
 
 def fam_unput(rng):
     rs = rules.gen_ruleset(rng, p_trail=0.0)
-    cfg = rt.Config(ledger=rng.random() < 0.5, backend=_backend(rng), topt=rng.choice(TOPTS), interactive=rng.choice([None, False]),
+    cfg = rt.Config(ledger=rng.random() < 0.5, backend=_backend(rng, cxx=True), topt=rng.choice(TOPTS), interactive=rng.choice([None, False]),
                     array=rng.random() < 0.3, lineno=rng.random() < 0.5)
     return rs, cfg, _ops_case(kinds=['unput', 'input', 'less', 'return'], small=False)
 
 
 def fam_reject(rng):
     rs = rules.gen_ruleset(rng, p_trail=rng.choice([0.0, 0.0, 0.3]))
-    cfg = rt.Config(ledger=rng.random() < 0.5, backend=_backend(rng), topt=_compressed(rng), interactive=rng.choice([None, False]),
+    cfg = rt.Config(ledger=rng.random() < 0.5, backend=_backend(rng, cxx=True), topt=_compressed(rng), interactive=rng.choice([None, False]),
                     reject=True, lineno=rng.random() < 0.4, array=rng.random() < 0.3, yymore=rng.random() < 0.4)
     return rs, cfg, _ops_case(kinds=['reject', 'reject', 'begin', 'return'] + (['more'] if cfg.yymore else []), small=False)
 
 
 def fam_lineno(rng):
     rs = rules.gen_ruleset(rng, p_trail=0.2, p_chain=rng.choice([0.0, 0.2]))
-    cfg = rt.Config(ledger=rng.random() < 0.5, backend=_backend(rng), topt=rng.choice(TOPTS), interactive=rng.choice([None, False]),
+    cfg = rt.Config(ledger=rng.random() < 0.5, backend=_backend(rng, cxx=True), topt=rng.choice(TOPTS), interactive=rng.choice([None, False]),
                     lineno=True, yymore=rng.random() < 0.5, array=rng.random() < 0.4)
     return rs, cfg, _ops_case(kinds=['less', 'input', 'more', 'return'] if cfg.yymore else ['less', 'input', 'return'])
 
 
 def fam_trail(rng):
     rs = rules.gen_ruleset(rng, p_trail=0.6, p_bol=0.3, p_chain=rng.choice([0.0, 0.25, 0.4]))
-    cfg = rt.Config(ledger=rng.random() < 0.5, backend=_backend(rng), topt=rng.choice(TOPTS), interactive=rng.choice([None, False]))
+    cfg = rt.Config(ledger=rng.random() < 0.5, backend=_backend(rng, cxx=True), topt=rng.choice(TOPTS), interactive=rng.choice([None, False]))
     return rs, cfg, _ops_case(kinds=['less', 'return'])
 
 
@@ -398,8 +403,8 @@ MATRIX_TOPTS = [['-Cem'], ['-Ce'], ['-Cm'], ['-C'], ['-Cf'], ['-CF'], ['-Cfe'], 
                 ['-CaF'], ['-Cam'], ['-Caem']]
 MATRIX = [(t, bits, inter, arr, be, tab)
           for t in range(len(MATRIX_TOPTS)) for bits in (8, 7) for inter in (None, True, False)
-          for arr in (False, True) for be in ('nr', 'r', 'c99') for tab in (None, 'file')
-          if not (be == 'c99' and tab)]       # serialized tables are only exercised through the default skeleton
+          for arr in (False, True) for be in ('nr', 'r', 'c99', 'cxx') for tab in (None, 'file')
+          if not (be in ('c99', 'cxx') and tab)]       # serialized tables are only exercised through the C API of the default skeleton
 
 
 def fam_matrix(rng, idx):
